@@ -551,6 +551,23 @@ func (c *Ctx) intbin(op string, a, b *Term) *Term {
 			}
 		}
 	}
+	if op == "div" && b.IsConst() && b.Big.Sign() > 0 {
+		// (m*A + K) div m = A + floor(K/m): exact for the Euclidean div with m > 0; keeps
+		// floor(x + 0.5) of an integer-valued x a plain variable instead of a div term
+		if q, ok := c.exactQuot(a, b.Big); ok {
+			return q
+		}
+		if a.Op == "+" && len(a.Args) == 2 {
+			for j := 0; j < 2; j++ {
+				if k := a.Args[1-j]; k.IsConst() {
+					if q, ok := c.exactQuot(a.Args[j], b.Big); ok {
+						fl := new(big.Int).Div(k.Big, b.Big) // Euclidean = floor for positive divisor
+						return c.IAdd(q, c.IntConst(fl))
+					}
+				}
+			}
+		}
+	}
 	switch op {
 	case "+":
 		if a.IsConst() && a.Big.Sign() == 0 {
@@ -573,6 +590,33 @@ func (c *Ctx) intbin(op string, a, b *Term) *Term {
 	}
 	return c.App(op, Int, a, b)
 }
+// exactQuot returns t/m when t is syntactically a multiple of m.
+func (c *Ctx) exactQuot(t *Term, m *big.Int) (*Term, bool) {
+	switch {
+	case t.IsConst():
+		q, r := new(big.Int).DivMod(t.Big, m, new(big.Int))
+		if r.Sign() == 0 {
+			return c.IntConst(q), true
+		}
+	case t.Op == "*" && len(t.Args) == 2:
+		for j := 0; j < 2; j++ {
+			if k := t.Args[j]; k.IsConst() {
+				q, r := new(big.Int).DivMod(k.Big, m, new(big.Int))
+				if r.Sign() == 0 {
+					return c.IMul(t.Args[1-j], c.IntConst(q)), true
+				}
+			}
+		}
+	case (t.Op == "+" || t.Op == "-") && len(t.Args) == 2:
+		qa, ok1 := c.exactQuot(t.Args[0], m)
+		qb, ok2 := c.exactQuot(t.Args[1], m)
+		if ok1 && ok2 {
+			return c.intbin(t.Op, qa, qb), true
+		}
+	}
+	return nil, false
+}
+
 func (c *Ctx) IAdd(a, b *Term) *Term { return c.intbin("+", a, b) }
 func (c *Ctx) ISub(a, b *Term) *Term { return c.intbin("-", a, b) }
 func (c *Ctx) IMul(a, b *Term) *Term { return c.intbin("*", a, b) }
